@@ -117,7 +117,12 @@ impl Node {
                 // So that when the replicate target asking for the copy,
                 // the node can have a higher chance to respond.
                 let store_scratchpad_result = self
-                    .validate_and_store_scratchpad_record(scratchpad, record_key.clone(), true)
+                    .validate_and_store_scratchpad_record(
+                        scratchpad,
+                        record_key.clone(),
+                        true,
+                        false,
+                    )
                     .await;
 
                 match store_scratchpad_result {
@@ -159,8 +164,8 @@ impl Node {
                     ));
                 }
 
-                // store the scratchpad
-                self.validate_and_store_scratchpad_record(scratchpad, key, false)
+                // store the scratchpad: without payment only as an update of the copy we hold
+                self.validate_and_store_scratchpad_record(scratchpad, key, false, true)
                     .await
             }
             RecordKind::Transaction => {
@@ -191,12 +196,15 @@ impl Node {
                 // The payment shall get deposit to self even the transaction already presents.
                 // However, if the transaction is already present, the incoming one shall be
                 // appended with the existing one, if content is different.
+                // Without a valid payment it is accepted only as an update of the copy we hold.
+                let mut update_only = false;
                 if let Err(err) = self
                     .payment_for_us_exists_and_is_still_valid(&net_addr, payment)
                     .await
                 {
                     if already_exists {
                         debug!("Payment of the incoming exists transaction {pretty_key:?} having error {err:?}");
+                        update_only = true;
                     } else {
                         error!("Payment of the incoming non-exist transaction {pretty_key:?} having error {err:?}");
                         return Err(err);
@@ -204,7 +212,7 @@ impl Node {
                 }
 
                 let res = self
-                    .validate_merge_and_store_transactions(vec![transaction], &key)
+                    .validate_merge_and_store_transactions(vec![transaction], &key, update_only)
                     .await;
                 if res.is_ok() {
                     let content_hash = XorName::from_content(&record.value);
@@ -248,7 +256,7 @@ impl Node {
 
                 // store the update
                 debug!("Store update without payment as we already had register at {pretty_key:?}");
-                let result = self.validate_and_store_register(register, true).await;
+                let result = self.validate_and_store_register(register, true, true).await;
 
                 if result.is_ok() {
                     debug!("Successfully stored register update at {pretty_key:?}");
@@ -291,19 +299,24 @@ impl Node {
                 // The payment shall get deposit to self even the register already presents.
                 // However, if the register already presents, the incoming one maybe for edit only.
                 // Hence the corresponding payment error shall not be thrown out.
+                // Without a valid payment it is accepted only as an update of the copy we hold.
+                let mut update_only = false;
                 if let Err(err) = self
                     .payment_for_us_exists_and_is_still_valid(&net_addr, payment)
                     .await
                 {
                     if already_exists {
                         debug!("Payment of the incoming exists register {pretty_key:?} having error {err:?}");
+                        update_only = true;
                     } else {
                         error!("Payment of the incoming non-exist register {pretty_key:?} having error {err:?}");
                         return Err(err);
                     }
                 }
 
-                let res = self.validate_and_store_register(register, true).await;
+                let res = self
+                    .validate_and_store_register(register, true, update_only)
+                    .await;
                 if res.is_ok() {
                     let content_hash = XorName::from_content(&record.value);
 
@@ -355,13 +368,13 @@ impl Node {
             RecordKind::Scratchpad => {
                 let key = record.key.clone();
                 let scratchpad = try_deserialize_record::<Scratchpad>(&record)?;
-                self.validate_and_store_scratchpad_record(scratchpad, key, false)
+                self.validate_and_store_scratchpad_record(scratchpad, key, false, false)
                     .await
             }
             RecordKind::Transaction => {
                 let record_key = record.key.clone();
                 let transactions = try_deserialize_record::<Vec<Transaction>>(&record)?;
-                self.validate_merge_and_store_transactions(transactions, &record_key)
+                self.validate_merge_and_store_transactions(transactions, &record_key, false)
                     .await
             }
             RecordKind::Register => {
@@ -376,7 +389,8 @@ impl Node {
                     );
                     return Err(Error::RecordKeyMismatch);
                 }
-                self.validate_and_store_register(register, false).await
+                self.validate_and_store_register(register, false, false)
+                    .await
             }
         }
     }
@@ -452,11 +466,16 @@ impl Node {
     /// Check Counter: It MUST ensure that the new counter value is strictly greater than the currently stored value to prevent replay attacks.
     /// Verify Signature: It MUST use the public key to verify the BLS12-381 signature against the content hash and the counter.
     /// Accept or Reject: If all verifications succeed, the node MUST accept the packet and replace any previous version. Otherwise, it MUST reject the update.
+    ///
+    /// `must_exist_locally`: the put carries no (valid) payment and is acceptable only as an update of the
+    /// copy held locally; it is rejected when the local read finds nothing (the copy may have been
+    /// pruned since its existence was checked).
     pub(crate) async fn validate_and_store_scratchpad_record(
         &self,
         scratchpad: Scratchpad,
         record_key: RecordKey,
         is_client_put: bool,
+        must_exist_locally: bool,
     ) -> Result<()> {
         // owner PK is defined herein, so as long as record key and this match, we're good
         let addr = scratchpad.address();
@@ -477,6 +496,11 @@ impl Node {
                 warn!("Rejecting Scratchpad PUT with counter less than or equal to the current counter");
                 return Err(Error::IgnoringOutdatedScratchpadPut);
             }
+        } else if must_exist_locally {
+            warn!("Rejecting Scratchpad PUT without payment: no local copy to update");
+            return Err(Error::InvalidPutWithoutPayment(
+                PrettyPrintRecordKey::from(&scratchpad_key).into_owned(),
+            ));
         }
 
         // ensure data integrity
@@ -509,10 +533,14 @@ impl Node {
         Ok(())
     }
     /// Validate and store a `Register` to the RecordStore
+    ///
+    /// `must_exist_locally`: the put carries no (valid) payment and is acceptable only as an update of the
+    /// copy held locally; it is rejected when that copy is no longer present.
     pub(crate) async fn validate_and_store_register(
         &self,
         register: SignedRegister,
         is_client_put: bool,
+        must_exist_locally: bool,
     ) -> Result<()> {
         let reg_addr = register.address();
         debug!("Validating and storing register {reg_addr:?}");
@@ -521,6 +549,13 @@ impl Node {
         let key = NetworkAddress::from_register_address(*reg_addr).to_record_key();
         let present_locally = self.network().is_record_key_present_locally(&key).await?;
         let pretty_key = PrettyPrintRecordKey::from(&key);
+
+        if must_exist_locally && !present_locally {
+            warn!(
+                "Rejecting Register PUT without payment: no local copy to update at {pretty_key:?}"
+            );
+            return Err(Error::InvalidPutWithoutPayment(pretty_key.into_owned()));
+        }
 
         // check register and merge if needed
         let updated_register = match self.register_validation(&register, present_locally).await? {
@@ -563,10 +598,14 @@ impl Node {
 
     /// Validate and store `Vec<Transaction>` to the RecordStore
     /// If we already have a transaction at this address, the Vec is extended and stored.
+    ///
+    /// `must_exist_locally`: the put carries no valid payment and is acceptable only as an update of the
+    /// transactions held locally; it is rejected when the local read finds nothing.
     pub(crate) async fn validate_merge_and_store_transactions(
         &self,
         transactions: Vec<Transaction>,
         record_key: &RecordKey,
+        must_exist_locally: bool,
     ) -> Result<()> {
         let pretty_key = PrettyPrintRecordKey::from(record_key);
         debug!("Validating transactions before storage at {pretty_key:?}");
@@ -612,7 +651,14 @@ impl Node {
         };
 
         // add local transactions to the validated transactions, turn to Vec
-        let local_txs = self.get_local_transactions(addr).await?;
+        let local_txs = match self.get_local_transactions(addr).await? {
+            Some(local_txs) => local_txs,
+            None if must_exist_locally => {
+                warn!("Rejecting Transaction PUT without valid payment: no local copy to update at {pretty_key:?}");
+                return Err(Error::InvalidPutWithoutPayment(pretty_key.into_owned()));
+            }
+            None => vec![],
+        };
         validated_transactions.extend(local_txs.into_iter());
         let validated_transactions: Vec<Transaction> = validated_transactions.into_iter().collect();
 
@@ -781,7 +827,11 @@ impl Node {
 
     /// Get the local transactions for the provided `TransactionAddress`
     /// This only fetches the transactions from the local store and does not perform any network operations.
-    async fn get_local_transactions(&self, addr: TransactionAddress) -> Result<Vec<Transaction>> {
+    /// `None`: no record is held at that address.
+    async fn get_local_transactions(
+        &self,
+        addr: TransactionAddress,
+    ) -> Result<Option<Vec<Transaction>>> {
         // get the local transactions
         let record_key = NetworkAddress::from_transaction_address(addr).to_record_key();
         debug!("Checking for local transactions with key: {record_key:?}");
@@ -789,7 +839,7 @@ impl Node {
             Some(r) => r,
             None => {
                 debug!("Transaction is not present locally: {record_key:?}");
-                return Ok(vec![]);
+                return Ok(None);
             }
         };
 
@@ -801,6 +851,6 @@ impl Node {
             return Err(NetworkError::RecordKindMismatch(RecordKind::Transaction).into());
         }
         let local_transactions: Vec<Transaction> = try_deserialize_record(&local_record)?;
-        Ok(local_transactions)
+        Ok(Some(local_transactions))
     }
 }
